@@ -9,6 +9,7 @@
 From Coq Require Import List NArith Bool String.
 From Verif Require Import Lib.Utf8 Jsonx.Lex Jsonx.Tok Jsonx.GoStr Jsonx.Num Jsonx.NumProofs
   Jsonx.Parse Jsonx.Json Jsonx.Encode Jsonx.ParseProofs Jsonx.Term Jsonx.JsonProofs Jsonx.StrAgree
+  Jsonx.Roundtrip Jsonx.PlainJson
   Jsonx.GenTypes Gen.JsonxConsts Jsonx.ConstsGen.
 Import ListNotations.
 Local Open Scope N_scope.
@@ -50,6 +51,58 @@ Theorem C09_unmarshal_ok_valid :
   exists v, json_parse t = Some (denote ff v).
 Proof. exact (fun F pf ff H1 H2 => unmarshal_stream_ok ff H1 H2 pf). Qed.
 Print Assumptions C09_unmarshal_ok_valid.
+
+(** A Decoder used for several values (More / Decode / Decode ...): a call
+    of Decode either hands json.Unmarshal a text that is valid JSON denoting
+    the tree parsed for it, or returns a non-empty error list; it never gives
+    json.Unmarshal a text that one rejects.  So every value of the stream
+    read until More() is false (or the first error) is valid JSON with the
+    meaning of its tree. *)
+Theorem C09_decode_step_valid :
+  forall (F : Type) (pf : list N -> option F) (ff : F -> list N),
+  (forall f, is_json_number (ff f) = true) -> (forall f r, ff f <> 45 :: r) ->
+  forall st r st', decode_step pf ff st = Some (r, st') ->
+  match r with
+  | DOk t => exists v, json_parse t = Some (denote ff v)
+  | DJsonErr _ => False
+  | DErrs es => es <> []
+  end.
+Proof. exact (fun F pf ff H1 H2 => decode_step_valid ff H1 H2 pf). Qed.
+Print Assumptions C09_decode_step_valid.
+
+Theorem C09_decode_stream_valid :
+  forall (F : Type) (pf : list N -> option F) (ff : F -> list N),
+  (forall f, is_json_number (ff f) = true) -> (forall f r, ff f <> 45 :: r) ->
+  forall input vs fin, decode_all pf ff input = Ok (vs, fin) ->
+  Forall (fun t => exists v, json_parse t = Some (denote ff v)) vs /\
+  match fin with Some (DJsonErr _) | Some (DOk _) => False | _ => True end.
+Proof. exact (fun F pf ff H1 H2 => decode_all_valid ff H1 H2 pf). Qed.
+Print Assumptions C09_decode_stream_valid.
+
+(** DecodeSeries with any TypeMaker [tm] (a type name is unknown, or comes
+    with the predicate "encoding/json's strict decoding into the value made
+    for it accepts this text" - encoding/json itself stays trusted): every
+    entry returned carries valid JSON denoting the parsed entry, its type is
+    known and its decoder accepted exactly that text; an unknown type or a
+    rejected text (unknown field, type mismatch) makes the whole call fail. *)
+Theorem C09_typed_series_valid :
+  forall (F : Type) (pf : list N -> option F) (ff : F -> list N),
+  (forall f, is_json_number (ff f) = true) -> (forall f r, ff f <> 45 :: r) ->
+  forall tm input res errs, decode_series pf ff tm input = Ok (Some res, errs) ->
+  errs = [] /\
+  Forall (fun nt => exists v acc, json_parse (snd nt) = Some (denote ff v) /\
+                                  tm (fst nt) = Some acc /\ acc (snd nt) = true) res.
+Proof. exact (fun F pf ff H1 H2 => decode_series_valid ff H1 H2 pf). Qed.
+Print Assumptions C09_typed_series_valid.
+
+Theorem C09_typed_series_all_or_nothing :
+  forall (F : Type) (pf : list N -> option F) (ff : F -> list N) tm s res,
+  decode_series_stream pf ff tm s = Some (Some res, []) ->
+  exists es st1, parse_series pf (parse_fuel (p_init s)) (p_init s) [] = Some (es, st1) /\
+    p_errs st1 = [] /\ List.length res = List.length es /\
+    Forall (fun e => exists acc t, tm (fst e) = Some acc /\ encode_value ff (snd e) = Some t /\ acc t = true) es.
+Proof. exact (fun F pf ff => decode_series_all_or_nothing ff pf). Qed.
+Print Assumptions C09_typed_series_all_or_nothing.
 
 (** Integers: the emitted digits are a JSON number of exactly the value of
     the Go-style literal (hexadecimal, octal or decimal), also after a minus
@@ -113,24 +166,35 @@ Theorem C09_trailing_reported :
 Proof. exact (fun F pf ff => unmarshal_stream_ok_consumed pf ff). Qed.
 Print Assumptions C09_trailing_reported.
 
-(** Not proved (kept as a statement): a text that the reference parser reads
-    as [j] and that JSONx accepts is converted to a text read as an equal
-    value.  The differential stream "plainjson" searches for a counterexample
-    on every run. *)
-Definition stmt_plain_json_same : Prop :=
+(** Plain JSON.  For every text of valid runes that the RFC 8259 reference
+    parser reads as [j] and that ToJSON accepts, there are no errors and the
+    emitted JSON is read by the reference parser as a value equal to [j]:
+    same structure, member order and duplicates; strings and keys rune for
+    rune; integers digit for digit; a float literal [u] possibly respelt as
+    [ff f] with [pf u = Some f] ([jrel]). *)
+Theorem C09_plain_json_same :
   forall (F : Type) (pf : list N -> option F) (ff : F -> list N),
   (forall f, is_json_number (ff f) = true) -> (forall f r, ff f <> 45 :: r) ->
-  forall input out j,
-    json_parse input = Some j -> to_json pf ff input = Ok (Some out, []) ->
-    exists j', json_parse out = Some j' /\
-      (* equal up to the spelling of numbers *)
-      (fix same (a b : jvalue) : Prop :=
-         match a, b with
-         | JNum _, JNum _ => True
-         | JArr x, JArr y => List.length x = List.length y
-         | JObj x, JObj y => map fst x = map fst y
-         | _, _ => a = b
-         end) j j'.
+  forall input j out errs,
+    forallb valid_rune input = true ->
+    json_parse input = Some j -> to_json pf ff input = Ok (Some out, errs) ->
+    errs = [] /\ exists j', json_parse out = Some j' /\ jrel pf ff j j'.
+Proof. exact (fun F pf ff H1 H2 => plain_json_same pf ff H1 H2). Qed.
+Print Assumptions C09_plain_json_same.
+
+(** Which plain JSON texts can be accepted at all: the text is the rendering
+    of a derivation tree [t] with [okj t]: no line end between a value (or a
+    key) and the "," ":" "]" "}" that follows it (JSONx turns such a line end
+    into a separator); every string literal is also a Go string literal
+    (no "\/", no surrogate escapes); every float literal is within the range
+    of strconv.ParseFloat.  Everything else that is valid JSON is rejected
+    for one of these three documented reasons. *)
+Theorem C09_plain_json_accepted :
+  forall (F : Type) (pf : list N -> option F) (ff : F -> list N) input j out errs,
+    json_parse input = Some j -> to_json pf ff input = Ok (Some out, errs) ->
+    exists w t w', input = w ++ core t ++ w' /\ jval t = j /\ okj pf t.
+Proof. exact (fun F pf ff => plain_json_accepted pf ff). Qed.
+Print Assumptions C09_plain_json_accepted.
 
 (** Non-vacuity. *)
 Definition ftab (lit : list N) : option (list N) :=
@@ -162,6 +226,30 @@ Proof. vm_compute. repeat split. Qed.
 Example C09_strings_agree_example :
   jstr_go JN [97; 92; 117; 48; 48; 101; 57; 92; 110; 92; 34; 34] = Some ([97; 233; 10; 34], []) /\
   go_unquote [34; 97; 92; 117; 48; 48; 101; 57; 92; 110; 92; 34; 34] = Some [97; 195; 169; 10; 34].
+Proof. vm_compute. split; reflexivity. Qed.
+
+(* { "a" : [1, -0, 2.5E+1, "x\u00e9"],
+     "a" : null }   -- plain JSON with white space, a duplicate key, a line end after "," *)
+Definition ftab2 (lit : list N) : option (list N) :=
+  if list_N_eqb lit [50; 46; 53; 69; 43; 49] then Some [50; 53] else None.    (* 2.5E+1 -> 25 *)
+
+Example C09_plain_json_example :
+  let input := [123; 32; 34; 97; 34; 32; 58; 32; 91; 49; 44; 32; 45; 48; 44; 32; 50; 46; 53; 69; 43; 49; 44; 32;
+                34; 120; 92; 117; 48; 48; 101; 57; 34; 93; 44; 10; 32; 34; 97; 34; 58; 110; 117; 108; 108; 32; 125; 10] in
+  json_parse input
+  = Some (JObj [([97], JArr [JNum [49]; JNum [45; 48]; JNum [50; 46; 53; 69; 43; 49]; JStr [120; 233]]);
+                ([97], JNull)]) /\
+  match to_json ftab2 (fun t => t) input with
+  | Ok (Some out, []) => json_parse out
+  | _ => None
+  end
+  = Some (JObj [([97], JArr [JNum [49]; JNum [45; 48]; JNum [50; 53]; JStr [120; 233]]); ([97], JNull)]).
+Proof. vm_compute. split; reflexivity. Qed.
+
+(* a line end between a value and the following "]" : rejected *)
+Example C09_plain_json_rejected_example :
+  json_parse [91; 49; 10; 93] = Some (JArr [JNum [49]]) /\
+  to_json ftab2 (fun t => t) [91; 49; 10; 93] = Ok (None, [EExpectOp]).
 Proof. vm_compute. split; reflexivity. Qed.
 
 Example C09_trailing_example :
